@@ -25,4 +25,4 @@ Deliverables (create the directory {wt}/seed/):
   2. {wt}/seed/demo.sh — a self-contained bash script taking the worktree root as $1 (already built with `cargo build --offline`), which exits 0 when the property holds on its scenario and non-zero when it is violated. It may create temp files under a mktemp dir and must clean up. It must FAIL with your change and PASS without it.
   3. {wt}/seed/meta.json — {{"property": "{pid}", "summary": "...what the change does...", "needs": "...what is needed for it to manifest...", "files": ["src/..."], "ran": ["commands you ran and what they showed"]}}
 
-Verify everything yourself: build with the change; run the test suite and record the pass/fail counts; run demo.sh (must fail); then `git stash` the source change, rebuild, run demo.sh (must pass); then `git stash pop` and rebuild so the worktree is left WITH the change applied and built. In your final message report: the change (diff), what it needs to manifest, test-suite result, demo result with and without the change.""")
+Verify everything yourself: build with the change; run the test suite and record the pass/fail counts; run demo.sh (must fail); then save the change with `git diff -- src > /tmp/mychange-{tag}.diff`, undo it with `git checkout -- src` (do NOT use `git stash`: the stash is shared with other worktrees of this repository and other people are using it), rebuild, run demo.sh (must pass); then re-apply it with `git apply /tmp/mychange-{tag}.diff` and rebuild so the worktree is left WITH the change applied and built. In your final message report: the change (diff), what it needs to manifest, test-suite result, demo result with and without the change.""")
